@@ -134,7 +134,8 @@ PROPS["C13"] = {
                   "rows' behaviour (D15) is kept as counterexample_* theorems and corpus cases. Trusted: Lean kernel; factgen row extraction "
                   "(cross-checked: the generator reads the running table through a hook); the hand-written model, tied by differential testing only; "
                   "command names on the replication stream are ASCII (Go's ToLower also folds non-ASCII letters).",
-    "rule": "p: 2..6 multi-key commands under one key filter, each filtered 400 times in its own goroutine, all at once (one parseSourceCommand goroutine per source node). d/w: every command of the running table and of the 65-name reference x arities 1..9 x all 2^k pass/fail patterns over the key "
+    "rule": "seq: streams of 3..11 commands (single- and multi-key commands with all / some / no key passing, SELECT, PING, keyless commands, mixed case) "
+            "through the real parseSourceCommand, judged by the parser model with this property's stateless specification as key filter. p: 2..6 multi-key commands under one key filter, each filtered 400 times in its own goroutine, all at once (one parseSourceCommand goroutine per source node). d/w: every command of the running table and of the 65-name reference x arities 1..9 x all 2^k pass/fail patterns over the key "
             "positions (k<=6 quick, k<=9 thorough; 42 sampled patterns above), non-key arguments randomised (also shaped like failing keys), "
             "all 2^n argument patterns for n<=5 (quick: 14 commands; thorough n<=6, all commands); 7 whitelist/blacklist/both/overlapping/binary "
             "configurations + degenerate empty-prefix lists + no filter; 1/4 of the cases through redis.ParseArgs with upper/mixed-case names; "
